@@ -26,6 +26,8 @@ DECIDED_R6 = ('Round 6: emit iterates a snapshot; shared error objects are read-
 DECIDED = DECIDED + ' ' + DECIDED_R6
 DECIDED_R7 = ('Round 7: request.copy() takes only the copied environ and the configuration from the original.')
 DECIDED = DECIDED + ' ' + DECIDED_R7
+DECIDED_R8 = ('Round 8: the error renderer reads no interpreter-written slot (__context__, __cause__, __traceback__); shared writes cover Route / RouteMethod objects built by the router.')
+DECIDED = DECIDED + ' ' + DECIDED_R8
 NOT_DECIDED = ('user handler code; C-level atomicity of dict/list operations (assumed); equality of each response with the one '
                'served alone is implied by confinement only for framework state, not proved for arbitrary handlers.')
 ASSUMPTIONS = ['builtin container operations are atomic under the GIL', 'threading.local gives each thread its own attributes',
@@ -341,6 +343,29 @@ def check_no_interpreter_slots_read(P, R, rid):
                      f'`{short(x)}` reads `{name}`, which the interpreter rewrites whenever the object is raised: the errors in config.errors_map are shared by all requests, so '
                      f'between the raise and the rendering of one request another thread\'s raise replaces it - the page shows the other request\'s failure',
                      why='nothing of one in-flight request is observable by another', key_extra=f'interpreter-slot:{name}')
+
+
+def check_copy_keeps_config(P, R, rid, why):
+    """request.copy() hands the configuration of the original to the copy: __new__ consumes the `config` keyword, and without it the copy falls back to
+    RequestConfig's defaults (no body limit, the default in-memory threshold, an empty errors_map)"""
+    f = P.maybe_func('ombott.request_pkg.request:BaseRequest.copy')
+    if f is None:
+        R.undecided(rid, 'ombott.request_pkg.request:BaseRequest.copy', None, 'copy()', 'BaseRequest.copy not found')
+        return
+    ctors = [c for c in walk_shallow(f.node) if isinstance(c, ast.Call) and (dotted(c.func) in ('self.__class__', 'Request', 'BaseRequest', 'cls') or src(c.func) == 'type(self)')]
+    if not ctors:
+        R.undecided(rid, f, f.node, 'copy()', 'the constructor call of the copy was not found')
+        return
+    for c in ctors:
+        cfg = next((k.value for k in c.keywords if k.arg == 'config'), c.args[1] if len(c.args) > 1 else None)
+        ok = cfg is not None and T.xsrc(f, cfg, f.cfg.node_of_stmt(c)[0]) == 'self.config'
+        later = [st for st in walk_shallow(f.node) if isinstance(st, ast.Assign) and any(isinstance(t, ast.Attribute) and t.attr == 'config' for t in st.targets) and src(st.value) == 'self.config'] + \
+                [st for st in walk_shallow(f.node) if isinstance(st, ast.Call) and call_attr(st) == 'setup' and st.args and src(st.args[0]) == 'self.config']
+        ok = ok or bool(later)
+        R.ob(rid, f, c, ok, text=f'`{short(c)}`: the copy gets the configuration of the original', detail='' if ok else
+             f'`{short(c)}` builds the copy without `config=self.config`: the copy is configured with RequestConfig\'s defaults - max_body_size None, the default in-memory '
+             f'threshold, an empty errors_map - so a body read through request.copy() is not limited (and a refused one is answered 500)',
+             why=why, key_extra='copy-config')
 
 
 def check_request_copy(P, R, rid, why):
